@@ -850,7 +850,9 @@ impl Connection {
             // Send an off-path PATH_RESPONSE. Prioritized over on-path data to ensure that path
             // validation can occur while the link is saturated.
             if space_id == SpaceId::Data && num_datagrams == 1 {
-                if let Some((token, remote)) = self.path_responses.pop_off_path(self.path.remote) {
+                if let Some((token, remote, received)) =
+                    self.path_responses.pop_off_path(self.path.remote)
+                {
                     // `unwrap` guaranteed to succeed because `builder_storage` was populated just
                     // above.
                     let mut builder = builder_storage.take().unwrap();
@@ -858,7 +860,11 @@ impl Connection {
                     buf.write(frame::FrameType::PATH_RESPONSE);
                     buf.write(token);
                     self.stats.frame_tx.path_response += 1;
-                    builder.pad_to(MIN_INITIAL_SIZE);
+                    // The address isn't validated, and all it is known to have sent is the packet
+                    // that carried the challenge: don't expand the response beyond three times that
+                    if received.saturating_mul(3) >= usize::from(MIN_INITIAL_SIZE) {
+                        builder.pad_to(MIN_INITIAL_SIZE);
+                    }
                     builder.finish_and_track(
                         now,
                         self,
@@ -2846,7 +2852,12 @@ impl Connection {
                     close = Some(reason);
                 }
                 Frame::PathChallenge(token) => {
-                    self.path_responses.push(number, token, remote);
+                    self.path_responses.push(
+                        number,
+                        token,
+                        remote,
+                        packet.header_data.len() + payload_len,
+                    );
                     if remote == self.path.remote {
                         // PATH_CHALLENGE on active path, possible off-path packet forwarding
                         // attack. Send a non-probing packet to recover the active path.
